@@ -60,6 +60,38 @@ def run(ctx):
                 cases.append(('srv', secret0, key))
         n += 1
     ctx.extra['forced_shapes_found'] = sorted(found)
+    # real RSA keys in several byte encodings (the hash covers the key bytes AS SENT by the server)
+    import rsakeys
+
+    def der_len(n):
+        if n < 0x80:
+            return bytes([n])
+        b = n.to_bytes((n.bit_length() + 7) // 8, 'big')
+        return bytes([0x80 | len(b)]) + b
+
+    def tlv(buf, p):
+        tag = buf[p]
+        l = buf[p + 1]
+        p += 2
+        if l & 0x80:
+            k = l & 0x7f
+            l = int.from_bytes(buf[p:p + k], 'big')
+            p += k
+        return tag, buf[p:p + l], p + l
+    for k in (rsakeys.RSA_1024, rsakeys.RSA_2048):
+        spki = k['der']
+        _, body, _ = tlv(spki, 0)
+        _, alg, q = tlv(body, 0)
+        _, bits, _ = tlv(body, q)
+        pkcs1 = bits[1:]
+        alg_nonull = b'\x30\x0b' + alg[:11]
+        bitstr = b'\x03' + der_len(len(pkcs1) + 1) + b'\x00' + pkcs1
+        nonull = b'\x30' + der_len(len(alg_nonull) + len(bitstr)) + alg_nonull + bitstr
+        longform = b'\x30\x83' + len(body).to_bytes(3, 'big') + body       # BER long-form length
+        for enc in (spki, pkcs1, nonull, longform, spki + b'\x00', spki[:-1]):
+            for sid in ('', 'srv1', 'é'):
+                cases.append((sid, secret0, enc))
+    ctx.extra['key_encodings'] = ['spki', 'pkcs1', 'spki-no-null-params', 'ber-long-length', 'spki+trailing', 'spki-truncated']
     alphabet = 'abc-XYZ09é世\U0001f600 '
     for _ in range(ctx.scale(1500, 20000)):
         sid = ''.join(rng.choice(alphabet) for _ in range(rng.randrange(0, 21)))
